@@ -186,19 +186,20 @@ def brentDoInit (I : FunI F α) (fuel : Nat) (s : St F (Brent α) α) (params : 
         | .ok (s, fx) =>
           .ok { s with ext := { g with e := zero, a := a, b := b, fw := fx, fv := fx, fx := fx, x := x, w := x, v := x } }
 
-/-- `BrentOneDimension::doStep` (BrentOneDimension.cpp:113-183) -/
-def brentDoStep (I : FunI F α) (s : St F (Brent α) α) : Except (Exc × F) (St F (Brent α) α × α) :=
-  let g := s.ext
+/-- first half of `BrentOneDimension::doStep` (BrentOneDimension.cpp:115-143): the abscissa `u` to
+try next (parabolic interpolation through x, v, w when it is acceptable, a golden section step
+otherwise), with the scratch members it leaves behind (`xm`, `tol1`, `tol2`, `d`, `e`) -/
+def brentPropose (tolerance : α) (g : Brent α) : Brent α × α :=
   let half : α := ofRat 1 2
   let two : α := ofInt 2
   let xm := half * (g.a + g.b)
-  let tol1 := s.core.tolerance * ntAbs g.x + zeps
+  let tol1 := tolerance * ntAbs g.x + zeps
   let tol2 := two * tol1
   -- golden section step: d = C * (e = (x >= xm ? a - x : b - x))
   let golden : α × α :=
     let e := if geb g.x xm then g.a - g.x else g.b - g.x
     (goldC * e, e)
-  let (d, e) : α × α :=
+  let de : α × α :=
     if gtb (ntAbs g.e) tol1 then
       let r := (g.x - g.w) * (g.fx - g.fv)
       let q := (g.x - g.v) * (g.fx - g.fw)
@@ -215,7 +216,23 @@ def brentDoStep (I : FunI F α) (s : St F (Brent α) α) : Except (Exc × F) (St
         let d := if ltb (u - g.a) tol2 || ltb (g.b - u) tol2 then sign2 tol1 (xm - g.x) else d
         (d, e)
     else golden
-  let u := if geb (ntAbs d) tol1 then g.x + d else g.x + sign2 tol1 d
+  let u := if geb (ntAbs de.1) tol1 then g.x + de.1 else g.x + sign2 tol1 de.1
+  ({ g with xm := xm, tol1 := tol1, tol2 := tol2, d := de.1, e := de.2 }, u)
+
+/-- second half of `doStep` (BrentOneDimension.cpp:151-178): housekeeping once `fu = f(u)` is known -/
+def brentUpdate (g : Brent α) (u fu : α) : Brent α :=
+  if leb fu g.fx then
+    let g := if geb u g.x then { g with a := g.x } else { g with b := g.x }
+    { g with v := g.w, w := g.x, x := u, fv := g.fw, fw := g.fx, fx := fu }
+  else
+    let g := if ltb u g.x then { g with a := u } else { g with b := u }
+    if leb fu g.fw || eqb g.w g.x then { g with v := g.w, w := u, fv := g.fw, fw := fu }
+    else if leb fu g.fv || eqb g.v g.x || eqb g.v g.w then { g with v := u, fv := fu }
+    else g
+
+/-- `BrentOneDimension::doStep` (BrentOneDimension.cpp:113-183) -/
+def brentDoStep (I : FunI F α) (s : St F (Brent α) α) : Except (Exc × F) (St F (Brent α) α × α) :=
+  let (g1, u) := brentPropose s.core.tolerance s.ext
   -- "Function evaluation": on a copy of the optimiser's list
   match setValueAt s.core.params 0 u with
   | .error ex => .error (ex, s.fn)
@@ -223,16 +240,7 @@ def brentDoStep (I : FunI F α) (s : St F (Brent α) α) : Except (Exc × F) (St
     match I.f s.fn pl with
     | .error ex => .error ex
     | .ok (fn, fu) =>
-      let g := { g with xm := xm, tol1 := tol1, tol2 := tol2, d := d, e := e }
-      let g : Brent α :=
-        if leb fu g.fx then
-          let g := if geb u g.x then { g with a := g.x } else { g with b := g.x }
-          { g with v := g.w, w := g.x, x := u, fv := g.fw, fw := g.fx, fx := fu }
-        else
-          let g := if ltb u g.x then { g with a := u } else { g with b := u }
-          if leb fu g.fw || eqb g.w g.x then { g with v := g.w, w := u, fv := g.fw, fw := fu }
-          else if leb fu g.fv || eqb g.v g.x || eqb g.v g.w then { g with v := u, fv := fu }
-          else g
+      let g := brentUpdate g1 u fu
       -- "Store results for this step"
       match setValueAt s.core.params 0 g.x with
       | .error ex => .error (ex, fn)
